@@ -24,6 +24,9 @@ def jobs(tier):
                     continue
                 if t and nt == 3 and len(blocks) > 1:
                     continue
+                n_atoms = sum(c for _, c in f)
+                if n_atoms > 4 and (nt > 1 or (nt == 1 and len(blocks) > 1)):
+                    continue        # index-mode numerals fork ~n+3 ways each: keep the product of forks bounded
                 js.append(job(M, "c10sem", f"sem/{fname}/t{nt}/b{bi}", dict(formula=f, tuples=nt, blocks=blocks), max_seconds=ms))
     return js
 
